@@ -465,7 +465,7 @@ fn fresh_id(ts: u64, salt: u64) -> Scru128Id {
 
 impl Exec {
     pub fn new(tag: &str, seed: u64, follower: bool) -> R<Exec> {
-        let mut w = World::new(tag, seed ^ 0x1d, &[], &["read.subscribed", "live.start", "live.recv", "append.enter", "append.id", "append.committed", "append.broadcast", "remove.enter"]);
+        let mut w = World::new(tag, seed ^ 0x1d, &[], &["read.subscribed", "live.start", "live.recv", "append.enter", "append.id", "append.committed", "append.sending", "append.broadcast", "remove.enter", "remove.committed"]);
         let path = w.dir.join("s0");
         std::fs::create_dir_all(&path).map_err(|e| Stop::Harness(e.to_string()))?;
         let store = w.open_store(&path)?;
